@@ -74,6 +74,7 @@ static vj::value handle(const vj::value& c) {
     auto opt_int = [&](const char* k) { return g[k].size() > 0; };
 
     // ---------------- generators (no operand)
+    if (op == "arange" && g.has("dtype") && g["dtype"].as_str() == "float") return project1d(view::arange((int)g["start"].as_int(), (int)g["stop"].as_int(), (int)g["step"].as_int()));     // default element type: float
     if (op == "arange") return project1d(view::arange((int)g["start"].as_int(), (int)g["stop"].as_int(), (int)g["step"].as_int(), nm::int64));
     if (op == "arange2") return project1d(view::arange((int)g["start"].as_int(), (int)g["stop"].as_int(), nm::int64));
     if (op == "arange1") return project1d(view::arange((int)g["stop"].as_int(), nm::int64));
